@@ -455,6 +455,7 @@ pub fn build_world(r: &mut Rng, cfg: &WorldCfg) -> Built {
             stop_latency_ns: 0,
             comm_fault: None,
             blocked_until_ns: 0,
+            compat32: false,
         });
     }
 
